@@ -28,7 +28,6 @@ import typing as ty
 from vt.ref import types as R
 
 LEVEL = "exploration"
-REJECTION_OK = ("TypeError", "ValueError", "FileNotFoundError", "FormatMismatchError")
 
 
 # --------------------------------------------------------------------------------------- oracle
@@ -219,6 +218,7 @@ def run(ctx):
     ]
     pmap(ctx, work, [("tp", R.tj(t), rich) for t in G], chunk=max(1, len(G) // (ctx.nproc * 12)))
     pmap(ctx, work, [("field", R.tj(t), rich) for t in G2], chunk=max(1, len(G2) // (ctx.nproc * 8)))
+    ctx.violations = R.interleave(ctx.violations)
     for k in ("field_run_other_error_examples", "field_types_refused_examples"):
         if k in ctx.coverage:
             ctx.coverage[k] = sorted(ctx.coverage[k])[:6]
